@@ -102,7 +102,7 @@ func (c *Conn) peerGone() {
 }
 
 // Gone reports whether the peer disconnected or a write failed.
-func (c *Conn) Gone() bool { c.mu.Lock(); defer c.mu.Unlock(); return c.gone }
+func (c *Conn) Gone() bool   { c.mu.Lock(); defer c.mu.Unlock(); return c.gone }
 func (c *Conn) Closed() bool { c.mu.Lock(); defer c.mu.Unlock(); return c.closed }
 
 func (c *Conn) Close(code StatusCode, reason string) error {
